@@ -1447,8 +1447,18 @@ class CAnalysis:
         return Null()
 
     # -- OpenSSL ------------------------------------------------------------------------
-    def _ctx_class(self, node):
+    def _ctx_class(self, node, _depth=0):
         t = strip(node)
+        if t.get("kind") == "DeclRefExpr" and _depth < 3:
+            # a local that only ever holds one context (`EVP_CIPHER_CTX *ctx = self->decrypt_ctx;`, never reassigned)
+            from .cq import const_locals, kids, preorder
+
+            fn = self.funcs.get(self._cur_fn.split(">")[-1]) or {}
+            name = t.get("referencedDecl", {}).get("name")
+            if name in const_locals(fn):
+                for d in preorder(fn):
+                    if d.get("kind") == "VarDecl" and d.get("name") == name and kids(d):
+                        return self._ctx_class(kids(d)[-1], _depth + 1)
         if t.get("kind") == "MemberExpr":
             base = strip([c for c in t["inner"] if c][0])
             bt = base.get("type", {}).get("qualType", "")
